@@ -78,6 +78,8 @@ type draWorld struct {
 	preShared map[string]map[string]resource.Quantity                       // in-cluster shared device key -> dimension -> consumed by live consumers
 	claims    map[string]*resourcev1.ResourceClaim
 	batch     []*corev1.Pod
+	late      []*corev1.Pod // applied only after the warm-up pass (warm worlds)
+	warm      bool          // run a first pass, launch its NodeClaims (uninitialised in-flight nodes with template devices), then judge a second pass
 	kinds     map[string]bool
 	nodeName  string
 }
@@ -437,6 +439,11 @@ func buildDRA(seed int64, par int64) *draWorld {
 		return c
 	}
 	n := 2 + rng.Intn(9)
+	w.warm = rng.Intn(100) < 30
+	nEarly := n
+	if w.warm {
+		nEarly = 1 + rng.Intn(n)
+	}
 	var claimNames []string
 	for i := 0; i < n; i++ {
 		cpuM := []int64{100, 250, 500, 1000, 1500, 3000}[rng.Intn(6)]
@@ -471,14 +478,18 @@ func buildDRA(seed int64, par int64) *draWorld {
 		if rng.Intn(6) == 0 {
 			gen.WithNodeSelector(corev1.LabelTopologyZone, gen.Zones[rng.Intn(3)])(p)
 		}
-		e.Apply(p)
+		if i < nEarly {
+			e.Apply(p)
+		} else {
+			w.late = append(w.late, p)
+		}
 		w.batch = append(w.batch, p)
 	}
 	var claimDesc []map[string]any
 	for _, name := range claimNames {
 		claimDesc = append(claimDesc, map[string]any{"name": name, "requests": w.claims[name].Spec.Devices.Requests})
 	}
-	w.desc = map[string]any{"worldSeed": seed, "parallelism": par, "preferencePolicy": string(pp), "instanceTypes": typeDesc, "pools": poolDesc, "publishedSlices": sliceDesc,
+	w.desc = map[string]any{"worldSeed": seed, "parallelism": par, "warmUpPassWithPods": map[bool]int{true: nEarly, false: 0}[w.warm], "preferencePolicy": string(pp), "instanceTypes": typeDesc, "pools": poolDesc, "publishedSlices": sliceDesc,
 		"inClusterCounters": w.counters, "preAllocated": preDesc, "claims": claimDesc, "batch": podSummaries(w.batch), "node": map[string]any{"name": w.nodeName, "zone": node.Labels[corev1.LabelTopologyZone]}}
 	return w
 }
@@ -534,30 +545,48 @@ func runDRA(r *mon.Report, tier string, idx int, rng *rand.Rand) {
 	e := w.e
 	r.Inc("dra_cases")
 	cs := map[string]any{"case": idx, "part": "dra", "world": w.desc}
+	if w.warm {
+		// warm-up: schedule the early pods, create and launch their NodeClaims and leave them uninitialised, so that the judged
+		// pass sees in-flight nodes whose devices are still template devices (plus the same, still pending, pods)
+		if e.SyncState() == nil {
+			w.hydrate(r, idx)
+			var res0 provscheduling.Results
+			var err0 error
+			if p0, pv0, st0 := mon.Guard(func() { res0, err0 = e.Prov.Schedule(e.Ctx) }); p0 {
+				r.Violate(draPanicKey(pv0), fmt.Sprintf("Provisioner.Schedule panicked (warm-up pass): %v", pv0), cs, st0)
+				r.Eval()
+				return
+			}
+			if err0 == nil {
+				for _, nc := range res0.NewNodeClaims {
+					name, cerr := e.Prov.Create(e.Ctx, nc)
+					if cerr != nil {
+						continue
+					}
+					st := []world.Stage{world.StageLaunched, world.StageNodeAppeared, world.StageRegistered}[rng.Intn(3)]
+					if inst, _, derr := e.DriveClaim(name, st); derr == nil && inst != nil {
+						r.Inc("dra_inflight_nodes_from_warmup")
+					}
+				}
+			}
+		}
+		for _, p := range w.late {
+			e.Apply(p)
+		}
+	}
 	if err := e.SyncState(); err != nil {
 		r.Inconcl("case %d: state sync error: %v", idx, err)
 		r.Eval()
 		return
 	}
 	// kube-controller-manager / manager runnable emulation: hydrate the real deviceallocation controller and reconcile every claim
-	e.DeviceAlloc.Hydrate(e.Ctx)
-	claims := &resourcev1.ResourceClaimList{}
-	_ = e.API.Raw.List(context.Background(), claims)
-	for i := range claims.Items {
-		if _, err := e.DeviceAlloc.Reconcile(e.Ctx, reconcile.Request{NamespacedName: types.NamespacedName{Namespace: claims.Items[i].Namespace, Name: claims.Items[i].Name}}); err != nil {
-			r.Inconcl("case %d: deviceallocation reconcile: %v", idx, err)
-		}
-	}
+	w.hydrate(r, idx)
 	var res provscheduling.Results
 	var err error
 	panicked, pv, stack := mon.Guard(func() { res, err = e.Prov.Schedule(e.Ctx) })
 	r.Eval()
 	if panicked {
-		key := "panic-in-schedule-dra"
-		if msg := fmt.Sprint(pv); strings.Contains(msg, "already allocated") {
-			key = "panic-dra-double-allocation"
-		}
-		r.Violate(key, fmt.Sprintf("Provisioner.Schedule panicked: %v", pv), cs, stack)
+		r.Violate(draPanicKey(pv), fmt.Sprintf("Provisioner.Schedule panicked: %v", pv), cs, stack)
 		return
 	}
 	if err != nil {
@@ -566,6 +595,26 @@ func runDRA(r *mon.Report, tier string, idx int, rng *rand.Rand) {
 		return
 	}
 	w.judge(r, res, cs, idx)
+}
+
+func draPanicKey(pv any) string {
+	if msg := fmt.Sprint(pv); strings.Contains(msg, "already allocated") {
+		return "panic-dra-double-allocation"
+	}
+	return "panic-in-schedule-dra"
+}
+
+// hydrate drives the real deviceallocation controller the way the manager would: hydration, then one reconcile per claim.
+func (w *draWorld) hydrate(r *mon.Report, idx int) {
+	e := w.e
+	e.DeviceAlloc.Hydrate(e.Ctx)
+	claims := &resourcev1.ResourceClaimList{}
+	_ = e.API.Raw.List(context.Background(), claims)
+	for i := range claims.Items {
+		if _, err := e.DeviceAlloc.Reconcile(e.Ctx, reconcile.Request{NamespacedName: types.NamespacedName{Namespace: claims.Items[i].Namespace, Name: claims.Items[i].Name}}); err != nil {
+			r.Inconcl("case %d: deviceallocation reconcile: %v", idx, err)
+		}
+	}
 }
 
 func (w *draWorld) judge(r *mon.Report, res provscheduling.Results, cs map[string]any, idx int) {
@@ -597,7 +646,11 @@ func (w *draWorld) judge(r *mon.Report, res provscheduling.Results, cs map[strin
 			placed[p.Name] = en.ProviderID()
 			if len(p.Spec.ResourceClaims) > 0 {
 				draPodsOn[en.ProviderID()]++
-				r.Inc("dra_pods_on_existing_node")
+				if en.NodeClaim != nil {
+					r.Inc("dra_pods_on_inflight_managed_node")
+				} else {
+					r.Inc("dra_pods_on_initialised_unmanaged_node")
+				}
 			}
 		}
 	}
@@ -714,7 +767,6 @@ func (w *draWorld) judge(r *mon.Report, res provscheduling.Results, cs map[strin
 		}
 		byDev[k] = append(byDev[k], a)
 	}
-	contended := 0
 	for _, k := range sortedKeys(byDev) {
 		as := byDev[k]
 		d := as[0].dev
@@ -740,18 +792,16 @@ func (w *draWorld) judge(r *mon.Report, res provscheduling.Results, cs map[strin
 			}
 		}
 		if len(as) > 1 {
-			contended++
+			r.Inc("dra_exclusive_devices_with_several_compatible_allocations") // one NodeClaim, different instance types
 		}
 	}
 	// ---- multi-allocatable devices: worst co-occurring sum per dimension
-	nShared := 0
 	for _, k := range sortedKeys(byDev) {
 		as := byDev[k]
 		d := as[0].dev
 		if !d.Shared {
 			continue
 		}
-		nShared++
 		r.Inc("dra_shared_devices_checked")
 		for dim, total := range d.Capacity {
 			sum := resource.Quantity{}
@@ -806,7 +856,6 @@ func (w *draWorld) judge(r *mon.Report, res provscheduling.Results, cs map[strin
 		}
 		byPool[sc] = append(byPool[sc], a)
 	}
-	nCounters := 0
 	for sc, as := range byPool {
 		var budget map[string]map[string]resource.Quantity
 		if as[0].template {
@@ -816,7 +865,6 @@ func (w *draWorld) judge(r *mon.Report, res provscheduling.Results, cs map[strin
 		}
 		for set, cnts := range budget {
 			for cname, total := range cnts {
-				nCounters++
 				r.Inc("dra_counters_checked")
 				sum := resource.Quantity{}
 				if !as[0].template {
@@ -881,8 +929,8 @@ func (w *draWorld) judge(r *mon.Report, res provscheduling.Results, cs map[strin
 			multi = true
 		}
 	}
-	r.Sig("dra|kinds=%s|claims=%s|multiPodTarget=%v|sharedClaim=%v|prealloc=%v|unscheduled=%v|par=%d", strings.Join(sortedKeys(kinds), "+"), bucket(len(res.DRAClaimAllocationMetadata), 4), multi, nSharedClaims > 0,
-		len(w.preExcl)+len(w.preShared) > 0, len(res.PodErrors) > 0, w.par)
+	r.Sig("dra|kinds=%s|claims=%s|multiPodTarget=%v|sharedClaim=%v|prealloc=%v|warm=%v|unscheduled=%v|par=%d", strings.Join(sortedKeys(kinds), "+"), bucket(len(res.DRAClaimAllocationMetadata), 4), multi, nSharedClaims > 0,
+		len(w.preExcl)+len(w.preShared) > 0, w.warm, len(res.PodErrors) > 0, w.par)
 	if r.WantSample() && idx%5 == 2 {
 		var as []string
 		for _, a := range allocs {
